@@ -86,6 +86,11 @@ pub fn alphabet(scheme: Scheme, init_seq: u64, own_pub: &[u8], other_pub: &[u8])
     a.push(Op::Insert(k("client"), Val::L(vec![b"one".to_vec()])));
     a.push(Op::Insert(k("ll"), Val::LL(vec![vec![vec![1], vec![]], vec![]])));
     a.push(Op::Insert(vec![], Val::B(vec![1, 2])));
+    // long keys: 55 / 56 bytes (RLP header form changes) and one that cannot fit
+    a.push(Op::Insert(vec![b'k'; 55], Val::U8(1)));
+    a.push(Op::Insert(vec![b'k'; 56], Val::B(vec![])));
+    a.push(Op::Insert(vec![b'k'; 400], Val::U8(1)));
+    a.push(Op::RemoveKey(vec![b'k'; 56]));
     a.push(Op::Insert(k("rec"), Val::Rec));
     a.push(Op::Insert(k("recs"), Val::RecList));
     a.push(Op::Insert(vec![0xff, 0x00], Val::U8(7)));
